@@ -31,6 +31,7 @@ fn main() {
     }
     let seed: u64 = std::env::var("VERIF_SEED").ok().and_then(|s| s.trim().parse().ok()).unwrap_or(1);
     let code = match args[0].as_str() {
+        "replay" if std::env::var_os("VCHECK_INNER").is_none() && replay_is_abort(Path::new(&args[1])) => supervise_replay(&args),
         "replay" => {
             let path = Path::new(&args[1]);
             let s = std::fs::read_to_string(path).unwrap_or_else(|e| {
@@ -43,6 +44,13 @@ fn main() {
             });
             let id = v["property"].as_str().unwrap_or("").to_string();
             dispatch(id.as_str(), &Action::Replay(path))
+        }
+        "probe" | "scenario-at" => {
+            // vcheck probe|scenario-at <ID> <seed> <idx> <variant> <tier>
+            let id = args[1].clone();
+            let n = |i: usize| args[i].parse::<u64>().expect("number");
+            let tier = if args[5] == "thorough" { Tier::Thorough } else { Tier::Quick };
+            dispatch(id.as_str(), &Action::Probe(n(2), n(3), n(4), tier, args[0] == "scenario-at"))
         }
         "survey" => {
             let id = args[1].clone();
@@ -101,9 +109,142 @@ fn main() {
                 }
                 i += 1;
             }
-            let opt = Options { tier, seed, threads, count_override: count };
-            dispatch(id, &Action::Check(&opt))
+            if std::env::var_os("VCHECK_INNER").is_none() && std::env::var_os("VCHECK_NO_SUPERVISOR").is_none() && id.len() == 3 && id.starts_with('C') {
+                supervise(id, &args, seed, tier)
+            } else {
+                let opt = Options { tier, seed, threads, count_override: count };
+                dispatch(id, &Action::Check(&opt))
+            }
         }
     };
     std::process::exit(code);
+}
+
+// ------------------------------------------------------------------------------------------------
+// The supervisor. The check itself runs in a child process. A change to the subject that makes the
+// *process* die (a second panic while the first one unwinds aborts; so does a panic in a destructor) must
+// come out as a violation with a replay file like any other, not as a dead checker.
+
+fn died(st: &std::process::ExitStatus) -> bool {
+    match st.code() {
+        None => true,
+        Some(c) => c >= 128,
+    }
+}
+
+fn tier_name(t: Tier) -> &'static str {
+    match t {
+        Tier::Quick => "quick",
+        Tier::Thorough => "thorough",
+    }
+}
+
+fn supervise(id: &str, args: &[String], seed: u64, tier: Tier) -> i32 {
+    use std::process::{Command, Stdio};
+    let exe = std::env::current_exe().expect("current_exe");
+    let dir = core::out_dir().join("tmp");
+    let _ = std::fs::create_dir_all(&dir);
+    let beacon = dir.join(format!("beacon-{}-{}.bin", id, std::process::id()));
+    if std::fs::write(&beacon, vec![0xffu8; core::BEACON_SLOTS * 16]).is_err() {
+        eprintln!("harness error: cannot write {}", beacon.display());
+        return 2;
+    }
+    let st = Command::new(&exe).args(args).env("VCHECK_INNER", "1").env("VCHECK_BEACON", &beacon).status();
+    let st = match st {
+        Ok(s) => s,
+        Err(e) => {
+            eprintln!("harness error: cannot start the checking process: {e}");
+            return 2;
+        }
+    };
+    if !died(&st) {
+        let _ = std::fs::remove_file(&beacon);
+        return st.code().unwrap_or(2);
+    }
+    // the checking process died: which scenario was it?
+    let cands = core::beacon_read(&beacon);
+    let _ = std::fs::remove_file(&beacon);
+    println!("the checking process died ({st}); {} scenarios were being executed at that moment, probing each in a process of its own", cands.len());
+    let num = |x: u64| x.to_string();
+    for (idx, variant) in cands {
+        let pst = Command::new(&exe)
+            .args(["probe", id, &num(seed), &num(idx), &num(variant), tier_name(tier)])
+            .env("VCHECK_INNER", "1")
+            .stdout(Stdio::null())
+            .stderr(Stdio::piped())
+            .output();
+        let Ok(pout) = pst else { continue };
+        if !died(&pout.status) {
+            continue;
+        }
+        let err = String::from_utf8_lossy(&pout.stderr);
+        let tail: Vec<&str> = err.lines().rev().take(3).collect();
+        let tail: String = tail.into_iter().rev().collect::<Vec<_>>().join(" / ").chars().take(300).collect();
+        // the scenario, printed by yet another child (generating the variants may execute the subject)
+        let mut scen: Option<serde_json::Value> = None;
+        for v in [variant, core::VARIANT_GENERATING] {
+            if let Ok(o) = Command::new(&exe).args(["scenario-at", id, &num(seed), &num(idx), &num(v), tier_name(tier)]).env("VCHECK_INNER", "1").stderr(Stdio::null()).output() {
+                if o.status.success() {
+                    if let Ok(j) = serde_json::from_slice::<serde_json::Value>(&o.stdout) {
+                        scen = Some(j);
+                        break;
+                    }
+                }
+            }
+        }
+        let Some(scen) = scen else { continue };
+        let message = format!(
+            "executing scenario {idx} (variant {}) of VERIF_SEED {seed} kills the process ({}) instead of returning a result: {}",
+            if variant == core::VARIANT_GENERATING { "—, while its fault variants were being derived".to_string() } else { variant.to_string() },
+            pout.status,
+            if tail.is_empty() { "no output".to_string() } else { format!("stderr ends: {tail}") }
+        );
+        let file = serde_json::json!({
+            "property": id,
+            "harness_version": core::HARNESS_VERSION,
+            "verif_seed": seed,
+            "scenario_index": idx,
+            "variant": if variant == core::VARIANT_GENERATING { 0 } else { variant },
+            "minimised": false,
+            "violation": {"class": "ProcessAborted", "message": message},
+            "full_digest": "",
+            "scenario": scen,
+            "log": [],
+        });
+        let rdir = core::out_dir().join("replays").join(id);
+        let _ = std::fs::create_dir_all(&rdir);
+        let path = rdir.join(format!("{id}-seed{seed}-i{idx}-abort.json"));
+        if std::fs::write(&path, serde_json::to_string_pretty(&file).unwrap()).is_err() {
+            eprintln!("harness error: cannot write {}", path.display());
+            return 2;
+        }
+        println!("violation class=ProcessAborted : {message}");
+        println!("VIOLATION property={id} replay={}", path.display());
+        return 1;
+    }
+    eprintln!("harness error: the checking process died ({st}) and none of the scenarios in execution at that moment kills a process of its own");
+    2
+}
+
+fn replay_is_abort(path: &Path) -> bool {
+    std::fs::read_to_string(path).ok().and_then(|s| serde_json::from_str::<serde_json::Value>(&s).ok()).map(|v| v["violation"]["class"] == "ProcessAborted").unwrap_or(false)
+}
+
+/// Replay of a `ProcessAborted` file: in a child; its death is the reproduction.
+fn supervise_replay(args: &[String]) -> i32 {
+    let exe = std::env::current_exe().expect("current_exe");
+    let st = std::process::Command::new(&exe).args(args).env("VCHECK_INNER", "1").status();
+    match st {
+        Ok(s) if died(&s) => {
+            let v: serde_json::Value = serde_json::from_str(&std::fs::read_to_string(&args[1]).unwrap_or_default()).unwrap_or_default();
+            println!("replayed: class=ProcessAborted the replaying process died ({s})");
+            println!("VIOLATION property={} replay={}", v["property"].as_str().unwrap_or("?"), args[1]);
+            1
+        }
+        Ok(s) => s.code().unwrap_or(2),
+        Err(e) => {
+            eprintln!("harness error: cannot start the replaying process: {e}");
+            2
+        }
+    }
 }
